@@ -15,8 +15,8 @@ Line-protocol handler for property C01.
   C01.static <program> <observations | ->  → the two-phase resolver model on a PLAIN program:
        `skip not-plain`, or TAB separated
          static  frag=0|1  den=eq|neq|na  rt=ok|na|<class|where|param|expected|observed>  <canonical static phase>
-       frag: the decidable hypotheses of `resolver_refines_den_mapstatic_checked` hold (for a
-             plain program they are those of `resolver_refines_den_plain_checked`);
+       frag: the decidable hypotheses of `resolver_refines_den_mapstatic_checked_partial` hold (for a
+             plain program they are those of `resolver_refines_den_plain_checked_partial`);
        den:  twoPhase = den on the recorded outs (must be `eq` whenever frag=1: the theorem);
        rt:   the model's run-time phase on the model's static phase against the OBSERVED
              `_args` of every stage job and the observed top-level outs;
